@@ -72,6 +72,11 @@ func (p *Path) goValue(fr *frame, it iface, verb byte) (gv interface{}, sym valu
 				}
 				return false, nil, true
 			}
+			// symbolic float64 under %v / %g: an opaque string that remembers its value
+			// (shortest round-trip rendering; contract in DESIGN 2.6)
+			if bb, ok := t.Underlying().(*types.Basic); ok && bb.Kind() == types.Float64 && (verb == 'v' || verb == 'g') {
+				return nil, &SymStr{b: make([]*Term, 8), taint: "%v of a symbolic float64", flt: v}, true
+			}
 			return fmtOpaque{"?"}, nil, false
 		}
 		b, _ := t.Underlying().(*types.Basic)
@@ -181,6 +186,21 @@ type fmtResult struct {
 func (r *fmtResult) addStr(s string) { r.parts = append(r.parts, s) }
 
 func (r *fmtResult) value() value {
+	// a format that consists of one verb returns the operand's rendering unchanged
+	// (keeps the decimal / float provenance tags)
+	nonEmpty := 0
+	var only value
+	for _, pz := range r.parts {
+		if strLen(pz) > 0 {
+			nonEmpty++
+			only = pz
+		}
+	}
+	if nonEmpty == 1 {
+		if ss, ok := only.(*SymStr); ok {
+			return ss
+		}
+	}
 	var out value = ""
 	for _, pz := range r.parts {
 		out = strConcat(out, pz)
@@ -248,7 +268,11 @@ func (p *Path) sprintf(fr *frame, format string, args []value) *fmtResult {
 		gv, sym, exact := p.goValue(fr, arg, v)
 		if sym != nil {
 			if ss, ok := sym.(*SymStr); ok && ss.taint != "" {
-				res.parts = append(res.parts, strings.Repeat("?", len(ss.b)))
+				if ss.flt != nil && (spec == "%v" || spec == "%g" || spec == "%s") {
+					res.parts = append(res.parts, ss) // kept as is when it is the whole result
+				} else {
+					res.parts = append(res.parts, strings.Repeat("?", len(ss.b)))
+				}
 				res.taint = ss.taint
 				continue
 			}
